@@ -3,7 +3,7 @@
 (* per parameter kind / state, the rest of the product is printed from it). *)
 EXTENDS Param, Json
 VARIABLE i
-PKinds == <<[p |-> "v", vst |-> "unset"], [p |-> "v", vst |-> "null"], [p |-> "v", vst |-> "x"], [p |-> "v", vst |-> "xy"], [p |-> "v", vst |-> "mb"],
+PKinds == <<[p |-> "v", vst |-> "unset"], [p |-> "v", vst |-> "null"], [p |-> "v", vst |-> "x"], [p |-> "v", vst |-> "xy"], [p |-> "v", vst |-> "mb"], [p |-> "v", vst |-> "bs2"], [p |-> "big", vst |-> "unset"],
             [p |-> "1", vst |-> "unset"], [p |-> "@", vst |-> "unset"], [p |-> "*", vst |-> "unset"],
             [p |-> "#", vst |-> "unset"], [p |-> "!", vst |-> "unset"]>>
 ArgSets == << <<>>, <<"">>, <<"x">>, <<"x", "", "yz">>, <<"mb", "x">> >>
@@ -11,13 +11,13 @@ WordOps == {":-", "-", ":=", "=", ":?", "?", ":+", "+"}
 PatOps == {"%", "%%", "#", "##"}
 Cases(k) ==
     {[p |-> PKinds[k].p, vst |-> PKinds[k].vst, args |-> ArgSets[a], op |-> op, w |-> w, q |-> q, ifs |-> ifs, nounset |-> nu] :
-        a \in 1..Len(ArgSets), op \in WordOps \cup PatOps \cup {"", "len"}, w \in {"w", "uv", "at", "side", "pat", "none"},
+        a \in 1..Len(ArgSets), op \in WordOps \cup PatOps \cup {"", "len"}, w \in {"w", "uv", "at", "side", "pat", "patbs", "none"},
         q \in {"none", "dq", "wq"}, ifs \in {"default", "comma", "empty", "mb"}, nu \in BOOLEAN}
 Valid(c) == /\ (c.op \in WordOps) <=> (c.w \in {"w", "uv", "side", "at"})
             /\ (c.w = "at") => (c.op \in {":-", "-", ":+", "+"} /\ c.q = "none")
-            /\ (c.op \in PatOps) <=> (c.w = "pat")
+            /\ (c.op \in PatOps) <=> (c.w \in {"pat", "patbs"})
             /\ (c.q = "wq") => (c.w \in {"w", "uv"})
-            /\ (c.p \in {"v", "#", "!"}) => c.args = <<"x">>          \* the positional parameters do not matter
+            /\ (c.p \in {"v", "#", "!", "big"}) => c.args = <<"x">>          \* the positional parameters do not matter
 Init == i = 1
 Next == i < Len(PKinds) /\ i' = i + 1
 Emit == \A c \in {x \in Cases(i) : Valid(x)} : PrintT(<<"CASE", ToJson(c)>>)
